@@ -5,7 +5,7 @@ import subprocess
 
 # id -> (claimed?, technique, level text, level note, design section)
 T = {
-    "C01": ("Sym operation-log monitor + polynomial identity test over GF(p); exact-rational / integer / dyadic-float reference-model monitor; IEEE special-value monitor (NaN, infinities, signed zeros) on f32/f64",
+    "C01": ("Sym operation-log monitor + polynomial identity test over GF(p); exact-rational / integer / dyadic-float reference-model monitor; IEEE special-value monitor (NaN, infinities, signed zeros) on f32/f64; badly scaled f32/f64 operands judged with the componentwise bound of a sum of products",
             "Every Mul / element-wise operator impl for Mat2/3/4 in both layouts is executed on free symbols and its complete logged dataflow compared with the textbook sums of products (identity test in all 8/18/32 entries), plus thousands of exact value cases per impl; held-on-observed-executions, not a proof.",
             "by parametricity one traced execution of the generic impl speaks for all inputs of the Sym monomorphisation; transfer to f32/f64/ints assumes vek has no specialisation and is cross-checked by native sweeps"),
     "C02": ("Sym operation-log monitor, structural per-lane comparison; native-type per-lane reference sweeps",
@@ -14,7 +14,7 @@ T = {
     "C03": ("Tag data-movement monitor: row-major, column-major and abstract model run side by side over random API programs; Miri and valgrind memcheck on the unsafe array conversions and slice views with a heap-owning element",
             "Random programs over the layout-agnostic matrix API are executed on a row-major value, a column-major value and an abstract model; after every step all three are compared through the raw public representation; flat views, Display (also with format specifications) and GL flag included; an index just outside the matrix must panic in both layouts.",
             "the abstract model is written from the documentation; element identity is carried by opaque tokens so any misplaced element is seen regardless of values"),
-    "C04": ("exact-rational (Q) and GF(p) monitors with registered angle tokens; f32/f64 sampling with derived tolerance (axes of any length, almost-unit lengths included)",
+    "C04": ("exact-rational (Q) and GF(p) monitors with registered angle tokens; f32/f64 sampling with derived tolerance (axes of any length, almost-unit lengths and magnitude ties between components included; 2-D vectors over the whole range of the type)",
             "Rotation builders are executed on exact unit-circle points (c,s) and rational-norm axes (scale factors from 2^-53 to 2^30, float axes over 20 / 120 decades): orthogonality, det=+1, fixed axis, right-handed sense, additivity, scale-invariance in the axis, Mat3/Mat4/Quaternion/Vec2 agreement are checked exactly; arbitrary float angles/axes with tolerance.",
             "identities are exact facts in Q[..]/(c^2+s^2-1); float tier tolerances are 64 eps scaled, ill-conditioned cases are inconclusive"),
     "C05": ("Sym/GF(p) polynomial identity monitors for the algebra; exact-rational unit quaternions; f64 sampling for acos-based extraction",
@@ -29,7 +29,7 @@ T = {
     "C08": ("exact-rational monitor: the eight view-volume corners through the real matrix and homogeneous divide; f32/f64 corner monitor with a derived tolerance for all 21 constructors",
             "For all 20 constructors x 2 layouts, random off-centre / reversed / negative plane sets and fov tokens: corners map to the clip-volume corners exactly (near planes down to 2^-60), w>0 in front, perspective == frustum of implied planes, LH == RH * z-mirror; the same corners on f32/f64 incl. narrow fields of view.",
             "inputs respect the constructors' debug_assert domains in the checked profile"),
-    "C09": ("exact-rational monitor on cameras generated from rational orthonormal frames; f64 sampling",
+    "C09": ("exact-rational monitor on cameras generated from rational orthonormal frames; f32/f64 sampling incl. whole scenes in astronomical / microscopic units, judged relative to the scene",
             "look_at / model_look_at (lh, rh, deprecated) and basis matrices: rigid, det +1, eye->0, target on the forward axis at distance d, up in the upper half-plane (up vectors from 2^-34 to 2^24 times unit length), model = inverse, origin/axes placement.",
             "cameras are built from rational frames so both normalisations are rational; float tier excludes up nearly parallel to the view direction"),
     "C10": ("exact-rational reference-model monitor for project/unproject; round-trip monitor; picking-matrix corner monitor",
@@ -39,15 +39,15 @@ T = {
             "Geometric definitions of cross/dot/normalize/reflect/refract/face_forward/areas/homogenize on all spatial vector kinds, incl. exact branch boundaries (k=0, dot=0); angle_between (magnitudes over 34 / 300 decades, degrees alias) and slerp (incl. extrapolation) on floats with tolerance; exact areas and homogenisation on native integer and float element types.",
             "near-singular slerp inputs are ill-conditioned"),
     "C12": ("exhaustive 8-bit sweep of the integer Lerp impls against an exact rational rounding model; Sym identity monitors for generic lerp; f32/f64 sampling for slerp",
-            "All 65 536 (from,to) pairs of i8 and u8 x factor grid x fast/precise x value/ref vs exact round-half-away; wider ints stratified; generic lerp identities; nlerp/slerp unit, shorter arc, constant speed; Transition accessors equal the matching Lerp call.",
+            "All 65 536 (from,to) pairs of i8 and u8 x factor grid x fast/precise x value/ref vs exact round-half-away; wider ints stratified (each formula judged on its own exactness domain, mantissa-wide and equal endpoints included); generic lerp identities; nlerp/slerp unit, shorter arc, constant speed; Transition accessors equal the matching Lerp call.",
             "integer oracle judges only endpoints exactly representable in the factor type and results in range, as the property states"),
-    "C13": ("exhaustive grid enumeration against point-set semantics",
+    "C13": ("exhaustive grid enumeration against point-set semantics; exact-rational / dyadic-float / unsigned reference-model monitors; distance_to_point over the whole float range (subnormal offsets included)",
             "All boxes with corners on a small grid (valid and invalid) x all second boxes x all grid/half-grid points, 2-D exhaustive and 3-D exhaustive in thorough: every Aabr/Aabb/Rect/Rect3 method is compared pointwise with the set it denotes; all boxes with signed / odd coordinates for centre, size and the rectangle == box equivalence.",
             "methods that assert validity are called only inside their documented domain"),
     "C14": ("Sym/GF(p) polynomial identity monitors with forward-mode derivatives over the logged evaluate",
             "evaluate == Bernstein polynomial in free control points and free t; evaluate_derivative == d/dt of the logged evaluate; split re-parametrises; elevation, matrix form, reversal, flips, matrix*curve commute; an exact value tier with coincident control points at t = 0, 1, inside and outside; quarter circle radius on floats.",
             "identities are decided at random points of GF(2^61-1)"),
-    "C15": ("exact-rational monitor on curves constructed per branch of the root finder; f64 grid sampling (nearly parabolic cubics included); search/length monotonicity monitors; bounded-progress monitor: a budgeted f64 element type counts vek's scalar operations and unwinds a search that exceeds 2e7 of them",
+    "C15": ("exact-rational monitor on curves constructed per branch of the root finder; f64 grid sampling (nearly parabolic cubics included); search/length monotonicity monitors (length in f64 and, with the summation bound, in f32); bounded-progress monitor: a budgeted f64 element type counts vek's scalar operations and unwinds a search that exceeds 2e7 of them",
             "Extrema parameters in [0,1] and optimal, inflections are derivative zeros inside the interval, boxes in curve coordinates containing and touching the curve, search result no worse than coarse samples, length bounds and refinement monotonicity.",
             "curves are integrated from chosen derivatives so true extrema are known exactly"),
     "C16": ("exact-rational monitors with squared-distance, parametric-minimisation and Cramer-solve oracles; f32/f64 for pi formulas",
@@ -62,8 +62,8 @@ T = {
     "C19": ("Tag data-movement monitor against a table written from the documentation; exhaustive 256 shuffle masks; Sym identity for the embedding/multiplication commutation law",
             "Every From between vector kinds/sizes, swizzles, with_*, homogeneous constructors, unit vectors, all shuffle entry points for all masks and out-of-range indices, colour helpers for every ColorComponent type.",
             "expected tables are transcribed from vek's documentation"),
-    "C20": ("per-lane exhaustive 8-bit reference sweeps of the numeric lifts; float-class sweeps of approx lifts; observed stable-toolchain builds of 212 feature configurations with a behaviour digest",
-            "checked/wrapping/saturating/overflowing/Euclid/Inv lifts vs the scalar op per lane (each lane position over all 65 536 operand pairs), casts fail iff one element fails, approx lifts == conjunction; every {std,libm} x single/pair/full feature set is built and a fixed workload's digest compared.",
+    "C20": ("per-lane exhaustive 8-bit reference sweeps of the numeric lifts; float-class sweeps of approx lifts; observed stable-toolchain builds of 214 feature configurations, each running a fixed and a pseudo-random differential workload (about 56 000 hashed results over ~500 always-present entry points per configuration) whose per-section digests are compared between configurations",
+            "checked/wrapping/saturating/overflowing/Euclid/Inv lifts vs the scalar op per lane (each lane position over all 65 536 operand pairs), casts fail iff one element fails, approx lifts == conjunction; every {std,libm} x single/pair/full feature set is built; a fixed workload and a seeded pseudo-random workload over the always-present API are hashed per section and compared within a base, between std and libm for the sections without transcendental functions, and per float backend for the others.",
             "the 'builds' clause is an observation of the real toolchain on the real tree, one toolchain, one target"),
 }
 
